@@ -11,7 +11,7 @@ ID = 'C04'
 LEVEL = 'exploration'
 N = {'quick': 32000, 'thorough': 1200000}
 RULE = ('generated elections biased towards tallies landing on the quota (total ballots a multiple of seats+1, a candidate given exactly '
-        'the Droop quotient or one more), all rules x accepted options; non-trivial = some tally equals the quota exactly or exceeds it by '
+        'the Droop quotient or one more; 3 % of the Gregory counts with more than 2^53 ballots), all rules x accepted options; the formula is the one of the arithmetic asked for; non-trivial = some tally equals the quota exactly or exceeds it by '
         'exactly one unit in the last place at some recorded action; distinct = distinct case JSON')
 TECHNIQUE = 'property-based testing: closed-form quota recomputed from the profile; invariant "quota => elected before any exclusion" over the history'
 LEVEL_TEXT = 'the quota formula and the election-at-quota invariant are checked on every action of generated, boundary-biased counts'
